@@ -1,5 +1,8 @@
 #!/bin/bash
 # MANIFEST.setup_cmd: offline, from files on disk only. Regenerates rocq/Gen from /repo/src and builds every .vo.
-cd /verif || exit 2
-export PYTHONPATH=/repo/src:/verif/shim:/verif PYTHONHASHSEED=0 PYTHONDONTWRITEBYTECODE=1
-exec /venv/bin/python -m harness.setup --clean
+ROOT="${VERIF_ROOT:-$(cd "$(dirname "$0")" && pwd)}"
+REPO="${VERIF_REPO:-/repo}"
+cd "$ROOT" || exit 2
+export VERIF_ROOT="$ROOT" VERIF_REPO="$REPO"
+export PYTHONPATH="$REPO/src:$ROOT/shim:$ROOT" PYTHONHASHSEED=0 PYTHONDONTWRITEBYTECODE=1
+exec /venv/bin/python -m harness.setup "$@"
